@@ -144,6 +144,28 @@ fn op1<C: DateRoll>(c: &C, op: i128, a: &[i128]) -> Ints {
             Ok(v) => Ok(v.iter().map(to_n).collect()),
             Err(_) => Err(()),
         }),
+        // 41 / 42 / 43 = 11 / 12 / 13 from a datetime WITH a time of day: last argument = seconds after midnight; the answer
+        // is the day number of the result, whose time of day must be the one supplied (else -7 and the raw seconds)
+        41 | 42 | 43 => {
+            let t = *a.last().expect("time of day");
+            let dt = from_n(a[0]) + chrono::TimeDelta::seconds(t as i64);
+            let back = move |d: &chrono::NaiveDateTime| -> Ints {
+                let secs = d.and_utc().timestamp() as i128;
+                if secs.rem_euclid(86400) == t {
+                    vec![secs.div_euclid(86400)]
+                } else {
+                    vec![-7, secs]
+                }
+            };
+            guard(|| match op {
+                41 => match c.add_bus_days(&dt, a[1] as i8, a[2] != 0) {
+                    Ok(d) => Ok(back(&d)),
+                    Err(_) => Err(()),
+                },
+                42 => Ok(back(&c.lag(&dt, a[1] as i8, a[2] != 0))),
+                _ => Ok(back(&c.add_days(&dt, a[1] as i8, &modifier(a[2]), a[3] != 0))),
+            })
+        }
         // ranges -> hash
         30 => {
             let mut out = vec![];
